@@ -737,7 +737,7 @@ func TestC14Long(outer *testing.T) {
 		}
 	}()
 	rapid.Check(outer, func(t *rapid.T) {
-		n := rapid.SampledFrom([]int{9000, 33000, 40000, 70000}).Draw(t, "stops")
+		n := rapid.SampledFrom([]int{9001, 33003, 40001, 70003}).Draw(t, "stops")
 		h := &History{WindowStart: 0, WindowEnd: 1 << 40}
 		h.Pool = []JTripDesc{{ID: "006000_L..N01R", RouteID: "L", Dir: 1, StartDate: 1_700_006_400, StartTimeSec: 3600}}
 		tcur := int64(1_700_010_000)
@@ -788,7 +788,7 @@ func TestC14Long(outer *testing.T) {
 
 // TestC15Large: histories over 9000 and 100000 trips (three or four feeds, so that more than 65,536 are known when trips vanish and reappear) (few feeds, short stop lists) against the reference journal model.
 func TestC15Large(outerT *testing.T) {
-	for _, k := range [][2]int{{9000, 1}, {100000, 1}, {100000, 0}} {
+	for _, k := range [][2]int{{9001, 1}, {100003, 1}, {100003, 0}} {
 		n, wide := k[0], k[1] == 1
 		outerT.Run(fmt.Sprintf("%d-wide=%v", n, wide), func(outer *testing.T) {
 			fail := ""
